@@ -824,13 +824,9 @@ def crashingCopy (thread : Json) (regs : Json) (idx : Nat) : Option Json :=
     | _ => none
   | _ => none
 
-/-- `ProcessState::print_json` up to the final `to_writer`: the `serde_json::Value`. -/
-def printJson (s : StateModel) : Outcome Json :=
-  let pw := s.sys.cpu.pw
-  obind (omapM (moduleJson pw s.certInfo s.symbolStats) s.modules) fun modules =>
-  obind (omapM (threadJson pw) s.threads) fun threads =>
-  obind (omapM (unloadedJson pw s.certInfo) s.unloaded) fun unloaded =>
-  let output : List (String × Json) := [
+/-- the members of the `json!({…})` literal (process_state.rs:891-1136) -/
+def baseFields (pw : PW) (s : StateModel) (modules threads unloaded : List Json) :
+    List (String × Json) := [
     ("status", .str "OK"),
     ("system_info", systemInfoJson s.sys),
     ("crash_info", crashInfoJson pw s),
@@ -850,6 +846,9 @@ def printJson (s : StateModel) : Outcome Json :=
     ("threads", .arr threads),
     ("unloaded_modules", .arr unloaded),
     ("handles", optJ (fun hs : List HandleM => .arr (hs.map handleJson)) s.handles)]
+
+/-- the second half of `print_json` (process_state.rs:1138-1171): add the `crashing_thread` copy -/
+def addCrashing (s : StateModel) (threads : List Json) (output : List (String × Json)) : Outcome Json :=
   match s.requestingThread with
   | none => .ok (mkObj output)
   | some i =>
@@ -862,6 +861,14 @@ def printJson (s : StateModel) : Outcome Json :=
         | some c => .ok (mkObj (output ++ [("crashing_thread", c)]))
         | none => .panic "crashing_thread: unwrap on the threads entry"
     | _, _ => .panic "self.threads[requesting_thread]: index out of bounds"
+
+/-- `ProcessState::print_json` up to the final `to_writer`: the `serde_json::Value`. -/
+def printJson (s : StateModel) : Outcome Json :=
+  let pw := s.sys.cpu.pw
+  obind (omapM (moduleJson pw s.certInfo s.symbolStats) s.modules) fun modules =>
+  obind (omapM (threadJson pw) s.threads) fun threads =>
+  obind (omapM (unloadedJson pw s.certInfo) s.unloaded) fun unloaded =>
+  addCrashing s threads (baseFields pw s modules threads unloaded)
 
 /-! ## 8. the documented schema (json-schema.md), in ONE place
 
